@@ -16,7 +16,7 @@ func init() {
 				W: map[string]int{
 					"app": 8, "ins": 6, "set": 7, "rem": 8, "pop": 1, "appN": 6, "remN": 4,
 					"mset": 12, "mrem": 8, "mpop": 1, "msetN": 5, "mremN": 3, "styp": 2, "reget": 1,
-					"commit": 9, "reopen": 3, "evict": 2, "crashchk": 6, "grow": 1, "mgrow": 1, "setN": 2, "mupdN": 2,
+					"commit": 9, "reopen": 3, "evict": 2, "crashchk": 6, "grow": 1, "mgrow": 1, "setN": 2, "mupdN": 2, "drop": 3,
 				},
 				Roots: [][]RootSpec{
 					{{K: "arr", Addr: 1, TI: 1}},
@@ -27,6 +27,7 @@ func init() {
 				},
 				MaxBulk: 80, Keys: []int{12, 64, 300},
 				ValW:    valAll, MaxDepth: 2, MaxElems: 5, AcqW: [3]int{8, 1, 1}, NondetPct: 30,
+				Keep: 12, // some handed-back containers are kept and disposed of later, also by identifier without loading
 			})
 		},
 		Or: func(*Case) Oracles {
@@ -34,7 +35,7 @@ func init() {
 			if thorough() {
 				ce = 1
 			}
-			return Oracles{CmpEvery: 8, FreshAtCommit: true, NoWriteBetweenCommits: true, CrashEvery: ce, QuietAfterEvict: true}
+			return Oracles{CmpEvery: 8, FreshAtCommit: true, NoWriteBetweenCommits: true, CrashEvery: ce, QuietAfterEvict: true, BlindDispose: true}
 		},
 		Post: func(e *Engine, cs *Case) error {
 			if err := e.CrashCheck(); err != nil {
